@@ -357,12 +357,9 @@ func VerifHarness_C18_session() {
 		return
 	}
 	r2 := w[0].(*Register)
-	if !verifrt.Symbolic() {
-		// only the native runs (replay, translator validation) can see this: inside the engine the
-		// seed goes through math/big arithmetic that is modelled as an opaque blob
-		verifrt.Sig("connection 2", "fresh-hash")
-		verifrt.Assert(r1.Hash != r2.Hash, "C18.session.register-carries-a-fresh-hash")
-	}
+	// (inside the engine the seed generator is a fresh random draw, two draws being distinct)
+	verifrt.Sig("connection 2", "fresh-hash")
+	verifrt.Assert(verifrt.Not(verifrt.BytesEq(r1.Hash[:], r2.Hash[:])), "C18.session.register-carries-a-fresh-hash")
 	verifrt.Sig("connection 2", "flags")
 	verifrt.Assert(!c.accepted.Load().(bool) && !c.handshakeComplete.Load().(bool), "C18.session.handshake-state-reset-on-new-connection")
 	// a message that is not the next id, sent before this connection's handshake, is not delivered
